@@ -75,6 +75,11 @@ def correspondence(ctx):
         tb.txs.insert(len(tb.txs) // 3, wide)
         tb.txs.insert(2 * len(tb.txs) // 3, fat)
         blocks[0].txs.insert(1, K.Tx([(GC.rb(r, 32), 2, b"\x01\x02", 0xffffffff)], [(j + 1, scripts(r, coin)) for j in range(600)]))
+        # ties for the record figures (biggest value, biggest size) among transactions far apart in one block: however the block is
+        # cut into pieces for the worker threads, the FIRST of them in block order is the one reported
+        champion_out = [(21 * 10**14, scripts(r, coin)), (1, b"\x6a\x4c\xf0" + bytes(240))]
+        for posf in (0.1, 0.45, 0.8, 0.97):
+            tb.txs.insert(max(1, int(len(tb.txs) * posf)), K.Tx([(GC.rb(r, 32), 3, b"\x01\x01", 0xffffffff)], list(champion_out)))
         prev = None
         for b in blocks:
             if prev is not None:
@@ -127,6 +132,56 @@ def correspondence(ctx):
         finally:
             C.rmtree(base)
     equal_tips(ctx, r)
+    big_index(ctx, r)
+
+
+def big_index(ctx, r):
+    """an index whose write-ahead log exceeds LevelDB's 4 MiB memtable (opening it makes LevelDB compact and write a manifest edit),
+    and one that has been reopened and appended to several times (several live logs / level-0 tables): after a run the index must
+    still open and hold exactly the same key/value pairs, and the output must be what the same chain gives with a small index"""
+    blocks = GC.gen_chain(r, "bitcoin", 4, max_txs=2, max_io=2, auxpow_mix=False)
+    small = K.Scenario(coin="bitcoin", callback="csvdump")
+    GC.simple_layout(small, blocks)
+    ref = small.run_impl()
+    for variant in ("one-big-log", "many-small-batches"):
+        s = K.Scenario(coin="bitcoin", callback="csvdump")
+        GC.simple_layout(s, blocks)
+        junk = [(b"t" + GC.rb(r, 32), GC.rb(r, 900)) for _ in range(6500 if variant == "one-big-log" else 1500)]
+        s.kvs = list(s.kvs) + junk
+        base = C.scratch()
+        try:
+            d, dump = os.path.join(base, "data"), os.path.join(base, "dump")
+            s.write_dir(d)
+            os.makedirs(dump)
+            if variant == "many-small-batches":
+                # reopen + append a few more records several times: more log files / tables than a freshly written index has
+                for k in range(5):
+                    extra = K.Scenario(coin="bitcoin")
+                    extra.kvs = [(b"u" + GC.rb(r, 32), GC.rb(r, 700)) for _ in range(400)]
+                    C.run([C.IMPL, "verif-hook", "mkindex", os.path.join(d, "index")], input="\n".join("%s %s" % (kk.hex(), vv.hex()) for kk, vv in extra.kvs) + "\n", check=False)
+            kv_before = dumpindex(d)
+            files_before = sorted(os.listdir(os.path.join(d, "index")))
+            res = s.run_impl(datadir=d, dump=dump)
+            res2 = s.run_impl(datadir=d, dump=dump)
+            try:
+                kv_after = dumpindex(d)
+            except Exception as e:
+                kv_after = ("index no longer opens: %r" % e).encode()
+        finally:
+            C.rmtree(base)
+        ctx.mark(("big-index", variant), True)
+        ctx.families["big-index"] += 1
+        ctx.traces += 2
+        problems = []
+        if res.exit != 0 or res2.exit != 0:
+            problems.append(("exit", res.exit, res2.exit))
+        if canon("csvdump", res) != canon("csvdump", ref) or canon("csvdump", res2) != canon("csvdump", ref):
+            problems.append(("output-differs-from-small-index-run", None, None))
+        if kv_before != kv_after:
+            problems.append(("index-content-modified", len(kv_before.splitlines()), kv_after[:120].decode(errors="replace") if len(kv_after) < 300 else len(kv_after.splitlines())))
+        if problems:
+            ctx.disagree("big-index", {"variant": variant, "n_kv": len(s.kvs), "index_files": files_before[:8]}, {"problems": [list(map(str, p)) for p in problems]}, {"expected": "same output as with a small index; index content unchanged and reopenable"}, True,
+                         {"observable": problems[0][0]})
 
 
 def equal_tips(ctx, r):
